@@ -6,6 +6,7 @@ import (
 	gofs "io/fs"
 	"os"
 	"path/filepath"
+	"sort"
 	"strings"
 	"testing"
 
@@ -30,6 +31,17 @@ type c10Case struct {
 	Exclude []string              `json:"exclude"`
 	Map     map[string]c10MapRule `json:"map"`    // nil = no map function
 	CbSkip  []string              `json:"cbskip"` // callback returns SkipDir for these paths
+	// EmptyLists: a pattern list without patterns is handed over as an empty,
+	// non-nil slice (what a caller gets from JSON "[]" or from filtering a list down)
+	EmptyLists bool `json:"emptylists,omitempty"`
+}
+
+// listArg is how a pattern list reaches the library: nil, or empty but non-nil.
+func listArg(l []string, emptyNonNil bool) []string {
+	if len(l) == 0 && emptyNonNil {
+		return []string{}
+	}
+	return l
 }
 
 var c10TreeCfg = h.TreeCfg{
@@ -50,6 +62,7 @@ func genC10(t *rapid.T) *c10Case {
 			c.Map[p] = c10MapRule{Res: rapid.SampledFrom([]int{0, 1, 1, 2}).Draw(t, fmt.Sprintf("mapres%d", i)), Rewrite: rapid.Bool().Draw(t, fmt.Sprintf("maprw%d", i))}
 		}
 	}
+	c.EmptyLists = rapid.IntRange(0, 2).Draw(t, "emptylists") == 0
 	if rapid.IntRange(0, 5).Draw(t, "hascb") == 0 && len(c.Tree.Nodes) > 0 {
 		c.CbSkip = []string{c.Tree.Nodes[rapid.IntRange(0, len(c.Tree.Nodes)-1).Draw(t, "cbnode")].Path}
 	}
@@ -70,7 +83,10 @@ type c10Outcome struct {
 
 func c10RunReal(src string, c *c10Case) c10Outcome {
 	var out c10Outcome
-	opt := &fsutil.FilterOpt{IncludePatterns: c.Include, ExcludePatterns: c.Exclude}
+	opt := &fsutil.FilterOpt{IncludePatterns: listArg(c.Include, c.EmptyLists), ExcludePatterns: listArg(c.Exclude, c.EmptyLists)}
+	if c.EmptyLists {
+		opt.FollowPaths = []string{}
+	}
 	if c.Map != nil {
 		opt.Map = func(p string, st *types.Stat) fsutil.MapResult {
 			out.calls = append(out.calls, "map:"+p)
@@ -272,5 +288,139 @@ func c10Check(env *h.Env, c *c10Case) error {
 }
 
 func TestC10(t *testing.T) {
-	h.Run(t, "C10", genC10, c10Check)
+	r := h.NewRunner("C10")
+	defer r.Finish(t)
+	h.RunWith(t, r, "", genC10, c10Check)
+	if t.Failed() {
+		return
+	}
+	t.Run("unpriv", func(t *testing.T) {
+		h.ScaleChecks(1, 40, func() { h.RunWith(t, r, "unpriv", genC10Unpriv, c10UnprivCheck) })
+	})
+}
+
+// ---------------------------------------------------------------------------
+// sub-run "unpriv": the filtered walk runs as uid 1000 (chrooted sub-process)
+// over a tree it owns in which one or two directories cannot be listed by it.
+// Where the patterns select nothing at or below such a directory, the naive
+// evaluation never has to look inside, so the walk must succeed with exactly the
+// naive result - whether or not its pruning shortcut applies (a wildcard in an
+// exception or in an include pattern switches the shortcut off).
+
+type c10UnprivCase struct {
+	Tree    *h.Tree  `json:"tree"`
+	Include []string `json:"include,omitempty"`
+	Exclude []string `json:"exclude,omitempty"`
+}
+
+func genC10Unpriv(t *rapid.T) *c10UnprivCase {
+	c := &c10UnprivCase{Tree: h.GenTree(t, c01UnprivCfg, "t")}
+	unprivNormalize(c.Tree)
+	var dirs, tops []string
+	for _, n := range c.Tree.Nodes {
+		if n.Kind == h.KDir {
+			dirs = append(dirs, n.Path)
+		}
+		if !strings.Contains(n.Path, "/") {
+			tops = append(tops, n.Path)
+		}
+	}
+	if len(dirs) == 0 {
+		c.Tree.Nodes = append(c.Tree.Nodes, h.Node{Path: "d", Kind: h.KDir, Perm: 0o700, Uid: 1000, Gid: 1000}, h.Node{Path: "d/inner", Kind: h.KFile, Perm: 0o644, Uid: 1000, Gid: 1000, Size: 3, Seed: 3})
+		c.Tree.Normalize()
+		dirs, tops = []string{"d"}, append(tops, "d")
+	}
+	locked := map[string]bool{}
+	for i := 0; i < rapid.IntRange(1, 2).Draw(t, "nlocked"); i++ {
+		locked[rapid.SampledFrom(dirs).Draw(t, fmt.Sprintf("locked%d", i))] = true
+	}
+	perm := rapid.SampledFrom([]uint32{0, 0o300, 0o100, 0o200}).Draw(t, "lockedperm")
+	for i := range c.Tree.Nodes {
+		if n := &c.Tree.Nodes[i]; locked[n.Path] {
+			n.Perm = perm
+		}
+	}
+	c.Tree.Normalize()
+	noMatch := rapid.SampledFrom([]string{"", "", "!*/zz-none", "!**/zz-none", "!zz-n*"}).Draw(t, "exception")
+	if rapid.Bool().Draw(t, "byexclude") {
+		for d := range locked {
+			c.Exclude = append(c.Exclude, d)
+		}
+		sort.Strings(c.Exclude)
+		if rapid.IntRange(0, 3).Draw(t, "moreexc") == 0 && len(tops) > 0 {
+			c.Exclude = append(c.Exclude, rapid.SampledFrom(tops).Draw(t, "exctop"))
+		}
+		if noMatch != "" {
+			c.Exclude = append(c.Exclude, noMatch)
+		}
+	} else {
+		for i := 0; i < rapid.IntRange(1, 3).Draw(t, "ninc"); i++ {
+			c.Include = append(c.Include, rapid.SampledFrom(append([]string{"zz-none", "*/zz-none", "a*", "[a-b]", "*b"}, tops...)).Draw(t, fmt.Sprintf("inc%d", i)))
+		}
+	}
+	return c
+}
+
+func c10UnprivCheck(env *h.Env, c *c10UnprivCase) error {
+	jail := filepath.Join(env.Scratch, "jail")
+	src := filepath.Join(jail, "src")
+	if err := os.MkdirAll(src, 0o755); err != nil {
+		return h.Infra(err)
+	}
+	if err := h.Materialise(c.Tree, src); err != nil {
+		return h.Infra(err)
+	}
+	if err := os.Chown(src, 1000, 1000); err != nil {
+		return h.Infra(err)
+	}
+	os.Chmod(jail, 0o755)
+	os.Chmod(env.Scratch, 0o755)
+	snap, err := h.Snapshot(src) // taken as root: the complete listing
+	if err != nil {
+		return h.Infra(err)
+	}
+	full := expectWalk(snap, func(string) bool { return true })
+	var listing []h.FilterEntry
+	var locked []string
+	for _, w := range full {
+		listing = append(listing, h.FilterEntry{Path: w.Path, IsDir: w.Stat.IsDir()})
+		if w.Stat.IsDir() && w.Stat.Mode&0o400 == 0 {
+			locked = append(locked, w.Path)
+		}
+	}
+	cc := &c10Case{Tree: c.Tree, Include: c.Include, Exclude: c.Exclude}
+	ref, rerr := c10Reference(listing, cc, false)
+	if rerr != nil {
+		return h.Infra(rerr)
+	}
+	for _, p := range ref.Reported {
+		for _, d := range locked {
+			if p == d || strings.HasPrefix(p, d+"/") {
+				// the result needs (the inside of) a directory the walker cannot list
+				env.Class("selection-needs-unlistable-directory")
+				return nil
+			}
+		}
+	}
+	var res c09JailResult
+	if err := runJailed(jail, "walk", 1000, jailWalkArg{Include: c.Include, Exclude: c.Exclude}, &res); err != nil {
+		return h.Infra(err)
+	}
+	env.Class("unprivileged-filtered-walk")
+	env.NonTrivial()
+	what := fmt.Sprintf("walk as uid 1000, include=%q exclude=%q, directories it cannot list: %q", c.Include, c.Exclude, locked)
+	if res.Err != "" {
+		return fmt.Errorf("%s: failed with %q although nothing at or below those directories is selected (the naive evaluation reports %q)", what, res.Err, ref.Reported)
+	}
+	var got []string
+	for i := range res.Stats {
+		got = append(got, string(res.Stats[i].Path))
+	}
+	if strings.Join(got, "\x00") != strings.Join(ref.Reported, "\x00") {
+		if chain, cerr := c10Reference(listing, cc, true); cerr == nil && strings.Join(got, "\x00") == strings.Join(chain.Reported, "\x00") {
+			return env.Known("patternmatcher-parent-results-divergence", "%s: walk reports %q, the naive reference %q; the chain model reproduces the walk's answer", what, got, ref.Reported)
+		}
+		return fmt.Errorf("%s: walk reports %q, reference filter reports %q", what, got, ref.Reported)
+	}
+	return nil
 }
